@@ -55,6 +55,11 @@ pub fn id_bytes(id: &Id) -> [u8; 32] {
 
 pub type Files = BTreeMap<(u8, Id), Bytes>;
 
+/// Bumped by every backend operation and every source read of this process: a command that has
+/// not returned while this counter and the process CPU time both stand still is blocked for good
+/// (C13's deadlock detector).
+pub static PROGRESS: std::sync::atomic::AtomicU64 = std::sync::atomic::AtomicU64::new(0);
+
 #[derive(Debug, Clone, Copy, PartialEq, Eq, Serialize, Deserialize)]
 pub enum OpKind {
     Create,
@@ -352,6 +357,7 @@ impl MemBackend {
 
     /// common entry for every operation: gate, latency, cut / fault decision
     fn enter(&self, kind: OpKind) -> Gatekeeper {
+        _ = PROGRESS.fetch_add(1, Ordering::Relaxed);
         let mut g = self.h.ctl.lock().unwrap();
         let my_idx = g.ops_seen;
         g.ops_seen += 1;
